@@ -22,6 +22,8 @@ KV_TEXT = {
     # keys that look like other parts of the syntax: a key named target, keys that begin with `ref`
     "keytarget": "target = x", "keytargetdbg": "target:? = x", "refprefix": "referrer = x", "refprefixnum": "ref_count = 3",
     "refprefixdbg": "refs:? = x",
+    # values that contain a string literal after something else (a byte string, a comparison)
+    "bytestr": '{k} = b"x"', "cmpstr": '{k} = z == "root"',
     "dbg": "{k}:? = x", "debug": "{k}:debug = x", "disp": "{k}:% = x", "display": "{k}:display = x",
     "shortdbg": "x:?", "err": "{k}:err = e", "sval": "{k}:sval = x", "serde": "{k}:serde = x",
     "ref=7": "ref = 7", "ref=0": "ref = 0", "ref=max": "ref = 4294967295", "ref=07": "ref = 07", "ref=x": "ref = x",
@@ -240,7 +242,7 @@ class Pack:
         self.name = name
         self.bom = bom
         self.crlf = crlf          # the whole file has CRLF line endings
-        self.parts = ["// generated by the verification harness: %s\nuse log::{info, warn, error};\n\npub fn f() {\n    let x = 1; let y = 2;\n" % name] if header else [""]
+        self.parts = ["// generated by the verification harness: %s\nuse log::{info, warn, error};\n\npub fn f() {\n    let x = 1; let y = 2; let z = \"root\";\n" % name] if header else [""]
         if bom:
             self.parts[0] = "\ufeff" + self.parts[0]
         if crlf:
@@ -490,6 +492,8 @@ def render_directive_case(pk, case, uid0):
             pk.filler(DIR_LINES[kind] + "\n")
         elif kind == "code":
             pk.filler("    let _z%d = 0;\n" % uid)
+        elif kind == "strdir":
+            pk.filler(('    let _s%d = "the docs say /* breadlog:ignore */";\n', '    let _s%d = "use /* breadlog:no-kvp */ here";\n')[uid % 2] % uid)
         elif kind == "attr":
             pk.filler(("    #[cfg(debug_assertions)]\n", "    #[allow(unused)]\n")[uid % 2])
         elif kind == "cmtextra":
